@@ -41,7 +41,10 @@ def run(ctx):
     # what the decoder makes of each escape sequence (shared with C05: the encoder's text for every byte, read back through the
     # interpreted decoder transitions, must be that byte - a swapped or missing escape letter changes the decoded value)
     import C05
-    C05.check_escape(ctx, prog)
+    try:
+        C05.check_escape(ctx, prog)
+    except automaton.Stuck as ex:
+        ctx.undecided('C05.escape', 'asl::XdlParser::parse', 'parse:escape sequences decoded to the JSON characters', '/repo/src/Xdl.cpp:0', 'the decoder loop uses a construct the abstract interpreter cannot represent: %s' % ex)
     return __doc__.split('\n\n', 1)[1]
 
 
